@@ -82,7 +82,7 @@ Res(s, out, rets) == [s |-> s, out |-> out, rets |-> rets, deliv |-> NoDeliv]
 
 InitState(cfg) ==
     [cfg |-> cfg, st |-> "disconnected", alive |-> TRUE, werr |-> "", endDue |-> -1, ended |-> FALSE,
-     reg |-> EmptyFn, hnd |-> EmptyFn, seq |-> 1, tx |-> EmptyFn, rtx |-> EmptyFn, ty |-> EmptyFn,
+     reg |-> EmptyFn, hnd |-> EmptyFn, seq |-> 1, alloc |-> EmptyFn, tx |-> EmptyFn, rtx |-> EmptyFn, ty |-> EmptyFn,
      calls |-> EmptyFn, kaDue |-> -1, gap |-> 0, ncall |-> 0, subs |-> {}, kaGhost |-> FALSE, kaFail |-> "",
      \* KaSync deviation only: the keep-alive loop is inside Ping(); occupancy of
      \* stateChangeCh and who is blocked in notifyStateChange
@@ -177,10 +177,15 @@ Terminate(r, werr, immediate) ==
 (* API calls                                                               *)
 PredefName(s, tid) == IF tid \in DOMAIN s.cfg.predef THEN {s.cfg.predef[tid]} ELSE {}
 
+(* The message ID of a new exchange is the client's free choice: no property says which ID it
+   allocates, only that retransmissions keep it and that acknowledgements are matched by it.  a.mid > 0 is
+   the choice bound from the observation (trace validation); the generator resolves the choice to a
+   counter (a.mid = 0).  `alloc` (ghost) remembers which call was given which ID so that generated
+   gateway packets can refer to "the ID of call c" instead of a number. *)
 NewTx(s, a, kind, phase, pkt, tl, h, tit, tid) ==
-    LET mid == s.seq
+    LET mid == IF a.mid > 0 THEN a.mid ELSE s.seq
         p   == [pkt EXCEPT !.mid = mid]
-    IN Res([s EXCEPT !.seq = @ + 1,
+    IN Res([s EXCEPT !.seq = @ + 1, !.alloc = Upd(@, mid, a.call),
                      !.tx = Upd(@, mid, TxRec(kind, phase, a.call, s.cfg.rd, p, tl, h, tit, tid)),
                      !.calls = Upd(@, a.call, CallRec(a.api, Bound(s, a.api, 0), a.qos, IF tit = 1 THEN (IF PredefName(s, tid) = {} THEN <<>> ELSE CHOOSE x \in PredefName(s, tid) : TRUE) ELSE tl, h))],
            <<p>>, {})
@@ -188,7 +193,7 @@ NewTx(s, a, kind, phase, pkt, tl, h, tit, tid) ==
 DoPublish(s, a, tit, tid) ==
     LET pk == [P0 EXCEPT !.t = "PUBLISH", !.qos = a.qos, !.tit = tit, !.tid = tid]
     IN  IF a.qos \in {0, 3}
-        THEN Res([s EXCEPT !.seq = @ + 1], <<[pk EXCEPT !.mid = s.seq]>>, {Instant(s, a, "nil")})
+        THEN Res(s, <<pk>>, {Instant(s, a, "nil")})   \* whatever MsgId it carries is irrelevant (never referred to)
         ELSE NewTx(s, a, IF a.qos = 1 THEN "pub1" ELSE "pub2", "pubrec", pk, a.tl, "", tit, tid)
 
 DoDisconnect(s, a) ==
@@ -626,8 +631,10 @@ ApiEv == \E a0 \in GenApis :
 
 GwEv == \E p0 \in GenGw : \E m \in GwMids(s, p0) :
            LET p == [p0 EXCEPT !.mid = m]
+               \* ref: the packet carries the message ID of that call's exchange, whatever ID the client chose
+               ref == IF m \in DOMAIN s.alloc THEN s.alloc[m] ELSE ""
            IN /\ s.alive
-              /\ Step([e |-> "gw", p |-> p], DoGw(s, p))
+              /\ Step([e |-> "gw", p |-> p, ref |-> ref], DoGw(s, p))
 
 AdvEv == /\ NextDue(s) > 0
          /\ LET n  == NextDue(s)
